@@ -166,6 +166,28 @@ macro_rules! wlits {
 }
 wlits! { "plain words, two runs\n", "\x1b[1mbold\x1b[0m and the rest of it", "tail", "\x1b[31", "mred\n", "a\x1b[32mb\x1b[44mc\x1b[0md" }
 
+/// after a call that FAILED: the console becomes reliable and one more formatted message (a run-time argument) is written.  It
+/// starts with ESC ESC [ 0 m - whatever state the failed call left the stream in, the text behind it is read from the ground
+/// state with the default rendition (the first ESC may be eaten by a character the failed call cut short) - so the console must
+/// now be handed exactly "probe" in the default colours, after at most a few bytes of debris; nothing of the failed message
+/// may be handed over again.
+fn probe_after_failure<W: Write>(s: &mut W, log: &Rc<RefCell<ConsoleLog>>, w: &mut dyn Write) {
+    {
+        let mut l = log.borrow_mut();
+        l.calls.clear();
+        l.script.clear();
+    }
+    let text = "\x1b\x1b[0mprobe";
+    let res = catch_unwind(AssertUnwindSafe(|| write!(s, "{}", text)));
+    let console: Vec<Value> = log.borrow().calls.iter().map(|(f, b, d, t, k)| json!([f, b, d, t, k])).collect();
+    let ret = match &res {
+        Ok(Ok(())) => json!(["ok", text.len()]),
+        Ok(Err(e)) => json!([kind_of(e), 0]),
+        Err(_) => json!(["panic", 0]),
+    };
+    writeln!(w, "{}", json!({"op":"write_fmt","new":2,"buf":text.as_bytes(),"console":console,"ret":ret})).unwrap();
+}
+
 fn record(seed: u64, runs: u64, target: usize, path: &str, faults: bool, palette: bool) -> Value {
     let f = std::fs::File::create(path).unwrap();
     let mut w = io::BufWriter::new(f);
@@ -324,6 +346,11 @@ fn record(seed: u64, runs: u64, target: usize, path: &str, faults: bool, palette
             first = false;
             match &res {
                 Ok(Ok(n)) => pos += (*n).min(c),
+                Ok(Err(_)) => {
+                    probe_after_failure(&mut s, &log, &mut w);
+                    events += 1;
+                    break;
+                }
                 _ => break,
             }
         }
@@ -391,6 +418,10 @@ fn script_replay(path: &str, out: &str) -> Value {
         };
         writeln!(w, "{}", json!({"op":op,"new":if first {1} else {0},"buf":buf,"console":console,"ret":ret,"script":c["script"],"model_ret":c["ret"]})).unwrap();
         events += 1;
+        if matches!(&res, Ok(Err(_))) {
+            probe_after_failure(&mut s, &log, &mut w);
+            events += 1;
+        }
     }
     w.flush().unwrap();
     json!({"summary":{"cases":cases,"events":events}})
